@@ -264,9 +264,11 @@ func runC13Case(c c13Case) (o c13Obs) {
 		case "release":
 			if op.Link < len(p.links) && !released[op.Link] {
 				released[op.Link] = true
+				waitAllTapped(p, expect)
 				p.tapsStable(30 * time.Millisecond)
+				want := p.coreB.count() + heldFrames(p, op.Link)
 				p.links[op.Link].ab.release()
-				waitRelayDrained(p, op.Link)
+				waitRelayDrained(p, op.Link, want)
 			}
 		case "drop":
 			if op.Link < len(p.links) {
@@ -281,9 +283,11 @@ func runC13Case(c c13Case) (o c13Obs) {
 	}
 	for i := range p.links {
 		if !released[i] {
+			waitAllTapped(p, expect)
 			p.tapsStable(30 * time.Millisecond)
+			want := p.coreB.count() + heldFrames(p, i)
 			p.links[i].ab.release()
-			waitRelayDrained(p, i)
+			waitRelayDrained(p, i, want)
 		}
 	}
 	p.quiesce(expect, 0, 2*time.Second)
@@ -323,11 +327,22 @@ func runC13Case(c c13Case) (o c13Obs) {
 	return o
 }
 
-// waitRelayDrained waits until the released link forwarded everything and the receiver handled it.
-func waitRelayDrained(p *pair, link int) {
+// waitRelayDrained waits until the released link forwarded everything and the receiver handled it:
+// every frame recorded on the link's tap must have produced its Route* call at the receiver (want = calls
+// before the release + frames on the tap that were still held). Generous limits: on a loaded machine the
+// receiving goroutines may be late by hundreds of milliseconds, and going on too early would let the next
+// link's frames overtake (a property of the harness, not of the code).
+func waitRelayDrained(p *pair, link int, want int) {
 	l := p.links[link]
-	for i := 0; i < 2000; i++ {
+	deadline := time.Now().Add(10 * time.Second)
+	for time.Now().Before(deadline) {
 		if l.ab.idle() {
+			break
+		}
+		time.Sleep(200 * time.Microsecond)
+	}
+	for time.Now().Before(deadline) {
+		if p.coreB.count() >= want {
 			break
 		}
 		time.Sleep(200 * time.Microsecond)
@@ -343,6 +358,29 @@ func waitRelayDrained(p *pair, link int) {
 		}
 		time.Sleep(300 * time.Microsecond)
 	}
+}
+
+// waitAllTapped: every frame sent so far has left the sender's flusher and is recorded on some link's tap.
+// (The flusher writes after a timer; "the taps stopped growing for a moment" is not enough: a timer that
+// fires 10 ms late would let a link be released - and declared drained - before its frames arrived.)
+func waitAllTapped(p *pair, frames int) {
+	deadline := time.Now().Add(10 * time.Second)
+	for time.Now().Before(deadline) {
+		n := 0
+		for li := range p.links {
+			n += heldFrames(p, li)
+		}
+		if n >= frames {
+			return
+		}
+		time.Sleep(200 * time.Microsecond)
+	}
+}
+
+// heldFrames: complete frames on the link's tap (A to B) - the release lets them through
+func heldFrames(p *pair, link int) int {
+	tap, _ := p.links[link].ab.snapshot()
+	return len(splitFrames(tap))
 }
 
 func monitorC13(c c13Case, o c13Obs) []string {
@@ -430,6 +468,20 @@ func runC13(n int, outPath, replay string) {
 			w.Case = c
 		}
 		cases = append(cases, w.Case)
+		// development aid: VERIF_C13_REPEAT=n runs the replayed case n times and prints the distribution of delivery orders
+		if rep := os.Getenv("VERIF_C13_REPEAT"); rep != "" {
+			var n int
+			fmt.Sscanf(rep, "%d", &n)
+			dist := map[string]int{}
+			for i := 0; i < n; i++ {
+				o := runC13Case(w.Case)
+				dist[fmt.Sprint(o.Delivered, o.Links)]++
+			}
+			for k, v := range dist {
+				fmt.Println(v, k)
+			}
+			return
+		}
 	} else {
 		cases = append(cases, corpusC13()...)
 		r := util.Rng(13)
